@@ -146,18 +146,38 @@ Print Assumptions excepted_state_is_the_only_leak.
 Theorem no_cache_left_behind : forall V fw fb present N x, In x all_progs -> snd (fst x) = false ->
   forall (s : st V),
     match exec V fw fb present N (prog_of x) s with
-    | Normal _ => peff V fw fb present N cache_key (prog_of x) s <> Written
-    | Aborted f _ => stage_failure f = true -> peff V fw fb present N cache_key (prog_of x) s <> Written
+    | Normal _ => peff V fw fb present N writes_empty cache_key (prog_of x) s <> Written
+    | Aborted f _ => stage_failure f = true -> peff V fw fb present N writes_empty cache_key (prog_of x) s <> Written
     end.
 Proof.
   intros V fw fb present N x Hx Hr s.
   destruct (cache_clean_in x Hx Hr) as [H1 H2].
-  assert (G := eff_sound V fw fb present N cache_key stage_failure (prog_of x) s). unfold eff_ok in G.
+  assert (G := eff_sound V fw fb present N cache_key stage_failure writes_empty (prog_of x) s). unfold eff_ok in G.
   destruct (exec V fw fb present N (prog_of x) s).
   - intros E. rewrite E in G. simpl in G. congruence.
   - intros Hd E. specialize (G Hd). rewrite E in G. simpl in G. congruence.
 Qed.
 Print Assumptions no_cache_left_behind.
+
+(* 5c. ... and at EVERY other raise site of the call (any class, anywhere) except the four listed ones, what such a
+   call leaves in "_internal_data" is nothing, a deletion, or a fresh empty dict (which every reader treats like an
+   absent key: monitor "empty == absent").  The four listed sites lie between the converged Newton loop and the
+   clean-up (rerun_hydraulics' connectivity check; the option lookup of the clean-up). *)
+Theorem cache_filled_only_at_listed_sites : forall V fw fb present N x, In x all_progs -> snd (fst x) = false ->
+  forall (s : st V),
+    match exec V fw fb present N (prog_of x) s with
+    | Normal _ => True
+    | Aborted f _ => unlisted f = true -> peff V fw fb present N writes_empty cache_key (prog_of x) s <> Written
+    end.
+Proof.
+  intros V fw fb present N x Hx Hr s.
+  assert (G := eff_sound V fw fb present N cache_key unlisted writes_empty (prog_of x) s). unfold eff_ok in G.
+  generalize cache_elsewhere_ok_true. unfold cache_elsewhere_ok. rewrite forallb_forall. intros H.
+  specialize (H x Hx). rewrite Hr in H. simpl in H. apply negb_true_iff in H.
+  destruct (exec V fw fb present N (prog_of x) s); auto.
+  intros Hd E. specialize (G Hd). rewrite E in G. simpl in G. congruence.
+Qed.
+Print Assumptions cache_filled_only_at_listed_sites.
 
 (* 6. transient thermal calculation (transient=True): the internal tables are carried from step to step by design.
    Exactly these keys are read from the previous call: none in the first step (simulation_time_step = 0); "_pit",
@@ -197,6 +217,7 @@ Example instances_nontrivial :
   accepts [] (Seq (IfComp 1 (Wr 0 "res_a")) (IfComp 2 (Rd 0 "res_a"))) = false /\
   accepts [] (Seq (Choice (Wr 0 "_x") Skip) (Rd 0 "_x")) = false /\
   accepts [] (Seq (Loop (Wr 0 "_x")) (Rd 0 "_x")) = false /\
-  eW (snd (eff "_c" (fun _ => true) (Seq (Wr 0 "_c") (Seq (Choice (Abort 1) Skip) (Del 0 "_c"))))) = true /\
-  eW (snd (eff "_c" (fun _ => true) (Seq (Wr 0 "_c") (Seq (Del 0 "_c") (Choice (Abort 1) Skip))))) = false.
+  eW (snd (eff "_c" (fun _ => true) (fun _ => false) (Seq (Wr 0 "_c") (Seq (Choice (Abort 1) Skip) (Del 0 "_c"))))) = true /\
+  eW (snd (eff "_c" (fun _ => true) (fun _ => false) (Seq (Wr 0 "_c") (Seq (Del 0 "_c") (Choice (Abort 1) Skip))))) = false /\
+  eW (snd (eff "_c" (fun _ => true) (Nat.eqb 0) (Seq (Wr 0 "_c") (Choice (Abort 1) Skip)))) = false.
 Proof. vm_compute. repeat split; auto. Qed.
